@@ -61,8 +61,12 @@ def gen(rng, tier):
                                                     300])])
             elif k < 0.45:
                 items.append(['emit_during_outage', rng.choice([0.5, 5])])
-            elif k < 0.55:
+            elif k < 0.50:
                 items.append(['sentinel', 0])
+            elif k < 0.55:
+                # only the publishing connection fails once (the manager
+                # reconnects and retries); the listener's is unaffected
+                items.append(['publish_hiccup', rng.choice([1, 1, 2])])
             elif k < 0.85:
                 # a junk message on the channel (same builders as the bus
                 # batch), then a sentinel
@@ -342,6 +346,22 @@ def _run_redis(case, cfg, w):
             send_sentinel(where + ' (after recovery)')
         elif kind == 'sentinel':
             send_sentinel(where)
+        elif kind == 'publish_hiccup':
+            nontrivial = True
+            broker.publish_failures = arg
+            tag = 'H%d' % i
+            h = w.api('h0', 'emit', 's', tag, to=sid)
+            w.settle()
+            broker.publish_failures = 0
+            if h.exc is not None:
+                v.add('emit_raised_on_publish_error', '%s: %r'
+                      % (where, h.exc))
+            got = [r for r in sc.peers['sent'].rx
+                   if r['pkt'].data == ['s', tag]]
+            if len(got) != 1:
+                v.add('local_emit_on_publish_error', '%s: local client '
+                      'received %d copies' % (where, len(got)))
+            send_sentinel(where + ' (after the publish error)')
         elif kind == 'junk':
             nontrivial = True
             raw = make_item(arg[0], arg[1], {
